@@ -295,6 +295,96 @@ def opCall (kindStyle prov scope : String) (items : List String) : String :=
         | r => showOutcomeC r
     else "bad-op"
 
+/-! ## pydantic models -/
+
+structure PField where
+  name : Name
+  ann : Option Ann          -- none = plain field
+  /-- numpy scalar types declared by the base type (`np.ndarray[Any, np.dtype[np.float32]]`): dtype codes -/
+  declared : List DT := []
+
+structure PState where
+  fields : List PField := []
+  va : Bool := false
+  /-- context + instance data of the last successfully built instance -/
+  inst : Option (CState × List (Name × Value)) := none
+  outs : List String := []
+  classErr : Option String := none
+
+def pfieldOf (s : String) : Except String PField :=
+  match s.splitOn "|" with
+  | ["F", name, base, spec] =>
+    match parseAnnSpec spec with
+    | .absent => .ok { name := name.toList, ann := none }
+    | .bad e => .error e
+    | .good a =>
+      let declared := match base.splitOn "=" with
+        | [_, dts] => (dts.splitOn "+").map parseDT
+        | _ => []
+      .ok { name := name.toList, ann := some a, declared }
+  | _ => .error "bad-op"
+
+/-- class-definition time: declared numpy scalar types must belong to the class (`dtype in self.DTYPES`) -/
+def classDefErr (fs : List PField) : Option String :=
+  fs.findSome? fun f =>
+    match f.ann with
+    | some a => if f.declared.any (fun d => !genAcc a.cls d) then some ("classdef reject dtype tensor=" ++ showName f.name) else none
+    | none => none
+
+def runValidation (fs : List PField) (vals : List (Name × Value)) : String × Option CState :=
+  -- declaration order whatever the keyword order; plain fields are not ours; a value pydantic refuses is
+  -- recorded and reported at the end
+  let step (acc : List (Name × Ann × Tensor) × Bool) (f : PField) :=
+    let (l, inv) := acc
+    match f.ann, lookupArg vals f.name with
+    | some a, some (.tensor t) => (l ++ [(f.name, a, t)], inv)
+    | some a, some .none => if a.optional then (l, inv) else (l, true)
+    | some _, _ => (l, true)
+    | none, _ => (l, inv)
+  let (fsT, inv) := fs.foldl step ([], false)
+  match validateIncremental genAcc {} fsT with
+  | .ok st => if inv then ("pyd-validation", none) else ("ok clean=1", some st)
+  | r => (showOutcomeC r, none)
+
+def parseVals (fs : List PField) (s : String) : List (Name × Value) :=
+  (fs.zip ((splitSemi s).map parseValue)).map fun (f, v) => (f.name, v)
+
+def pydStep (ps : PState) (st : String) : PState :=
+  match st.splitOn "|" with
+  | "F" :: _ =>
+    match pfieldOf st with
+    | .ok f => { ps with fields := ps.fields ++ [f] }
+    | .error e => { ps with classErr := ps.classErr <|> some ("classdef " ++ e) }
+  | ["N", _order, vals] =>
+    let vs := parseVals ps.fields vals
+    let (o, st') := runValidation ps.fields vs
+    { ps with outs := ps.outs ++ [o], inst := match st' with | some c => some (c, vs) | none => ps.inst }
+  | ["S", fname, val] =>
+    match ps.inst with
+    | none => { ps with outs := ps.outs ++ ["no-instance"] }
+    | some (c, data) =>
+      match ps.fields.find? (fun f => f.name == fname.toList) with
+      | none => { ps with outs := ps.outs ++ ["bad-op"] }
+      | some f =>
+        if !ps.va then { ps with outs := ps.outs ++ ["ok unvalidated"] } else
+        match f.ann, parseValue val with
+        | none, _ => { ps with outs := ps.outs ++ ["ok"] }
+        | some a, .tensor t =>
+          match pydanticAssign genAcc c f.name a t with
+          | .ok _ => { ps with outs := ps.outs ++ ["ok"] }
+          | r => { ps with outs := ps.outs ++ [showOutcomeC r] }
+        | some a, .none => { ps with outs := ps.outs ++ [if a.optional then "ok" else "pyd-validation"] }
+        | some _, _ => { ps with outs := ps.outs ++ ["pyd-validation"] }
+  | _ => { ps with outs := ps.outs ++ ["bad-op"] }
+
+def opPyd (config : String) (steps : List String) : String :=
+  let ps := steps.foldl (fun ps st =>
+    -- the class is defined when the first non-field step arrives
+    pydStep ps st) { va := config.splitOn "," |>.contains "va=1" }
+  match ps.classErr <|> classDefErr ps.fields with
+  | some e => e
+  | none => " ## ".intercalate ps.outs
+
 /-! ## histories -/
 
 structure HParse where
@@ -419,6 +509,7 @@ def handle (line : String) : String :=
   | "CTX" :: scope :: cmds => opCtx scope cmds
   | "CALL" :: kind :: prov :: scope :: items => opCall kind prov scope items
   | "HIST" :: steps => opHist steps
+  | "PYD" :: config :: steps => opPyd config steps
   | _ => "bad-op"
 
 partial def mainLoop (h : IO.FS.Stream) (out : IO.FS.Stream) : IO Unit := do
